@@ -6,11 +6,15 @@
   a registered *forwarding* type, and pre-actions with pairwise distinct supported identifiers and attributes
   of a registered *action* type. Parsing is a function of the memo and the oneof order only (C19 isolates
   the latter).
-  Not proved here (checked by the correspondence streams only): that every payload built through the
-  module's constructors serialises to a memo that parses back to an equal payload — the model has no
-  encoder; and the field-by-field rejection of unknown fields (each decoder ends in `noUnknown`).
+  Round trip (second half of the file): the model has the marshaller (`Orbiter/Encode.lean`: payload → tree → bytes,
+  compared byte for byte with `types.MarshalJSON` by stream S1). `c15_roundtrip_tree`: for every payload the Go
+  types can hold that passes `Payload.Validate` — in particular every payload built by the constructors,
+  `c15_constructed` — whatever text parses to the marshalled tree is accepted by the memo parser and yields
+  exactly that payload, under either oneof order. base64, decimal, `math.Int` and enum spellings are inverted
+  by the decoders for every value (`Lemmas/Encode.lean`).
 -/
 import Orbiter.Lemmas.NoPanic
+import Orbiter.Lemmas.Encode
 namespace Orbiter.C15
 open Orbiter
 
@@ -225,5 +229,87 @@ theorem c15_not_json_refused (π : OneofOrder) (memo : Bytes) (hj : parseJsonWho
     parsePayload π memo = .err "parse:not-json" := by
   unfold parsePayload
   simp only [hj]
+
+
+/-! ### round trip: constructor → marshalled tree → parser -/
+
+/-- **Round trip at tree level.** For every payload within its Go types that passes `Payload.Validate`: any memo
+whose JSON value is the marshalled tree parses back to exactly that payload — for either oneof order, whichever
+way an empty passthrough is spelled. -/
+theorem c15_roundtrip_tree (π : OneofOrder) (nilPass : Bool) (memo : Bytes) (p : Payload)
+    (hparse : parseJsonWhole memo = some (encWrapper nilPass p)) (ht : p.typed = true) (hv : p.validate = .ok ()) :
+    parsePayload π memo = .ok p :=
+  parsePayload_of_tree π nilPass memo p hparse ht hv
+
+/-- The decoder inverts the marshaller on every well-typed payload, valid or not (what `Validate` then says is
+the same on both sides). -/
+theorem c15_decode_encode (π : OneofOrder) (nilPass : Bool) (p : Payload) (ht : p.typed = true) :
+    decWrapper π (encWrapper nilPass p) = .ok p.toRaw :=
+  decWrapper_enc π nilPass p ht
+
+theorem protocolValid_fits {p : Int} (h : protocolValid p = true) : int32Fits p = true := by
+  have hall : Gen.protocolIds.all (fun e => int32Fits e.1) = true := by decide
+  unfold protocolValid at h
+  simp only [Bool.and_eq_true, List.any_eq_true] at h
+  obtain ⟨_, e, he, hp⟩ := h
+  have : e.1 = p := by simpa using hp
+  subst this
+  exact List.all_eq_true.mp hall e he
+
+theorem actionValid_fits {a : Int} (h : actionValid a = true) : int32Fits a = true := by
+  have hall : Gen.actionIds.all (fun e => int32Fits e.1) = true := by decide
+  unfold actionValid at h
+  simp only [Bool.and_eq_true, List.any_eq_true] at h
+  obtain ⟨_, e, he, hp⟩ := h
+  have : e.1 = a := by simpa using hp
+  subst this
+  exact List.all_eq_true.mp hall e he
+
+/-- What the public constructors build is valid and within the Go types, as soon as the arguments are
+(`uint32` domain and basis points, 256-bit `math.Int`s — facts of the argument types, not checks). -/
+theorem c15_constructed (hrp : String) (orb : Bytes) (pid : Int) (a : Attrs) (pass : Bytes)
+    (f : Forwarding) (acts : List Action) (p : Payload)
+    (ha : a.isForwarding = true ∧ a.typed = true)
+    (hf : newAttrsForwarding hrp orb pid a pass = .ok f)
+    (hacts : ∀ act ∈ acts, ∃ l : List FeeInfo, l.all FeeInfo.typed = true ∧ newFeeAction hrp l = .ok act)
+    (hp : newPayload f acts = .ok p) :
+    p.validate = .ok () ∧ p.typed = true ∧ p = { forwarding := some f, preActions := acts } := by
+  unfold newPayload at hp
+  obtain ⟨_, hv, hp⟩ := Res.bind_eq_ok.mp hp
+  simp only [Res.pure_eq, Res.ok.injEq] at hp
+  subst hp
+  refine ⟨by cases ‹Unit›; exact hv, ?_, rfl⟩
+  -- the forwarding
+  unfold newAttrsForwarding newForwarding at hf
+  obtain ⟨_, _, hf⟩ := Res.bind_eq_ok.mp hf
+  obtain ⟨_, hfv, hf⟩ := Res.bind_eq_ok.mp hf
+  simp only [Res.pure_eq, Res.ok.injEq] at hf
+  subst hf
+  have hpid : protocolValid pid = true := by
+    unfold Forwarding.validate at hfv
+    split at hfv
+    · cases hfv
+    · rename_i h1; simpa using h1
+  have hft : Forwarding.typed { protocolId := pid, attrs := some a, passthrough := pass } = true := by
+    simp [Forwarding.typed, protocolValid_fits hpid, ha.1, ha.2]
+  -- the actions
+  have hat : ∀ act ∈ acts, act.typed = true := by
+    intro act hact
+    obtain ⟨l, hl, hx⟩ := hacts act hact
+    unfold newFeeAction newAction at hx
+    obtain ⟨_, _, hx⟩ := Res.bind_eq_ok.mp hx
+    obtain ⟨_, hxv, hx⟩ := Res.bind_eq_ok.mp hx
+    simp only [Res.pure_eq, Res.ok.injEq] at hx
+    subst hx
+    have hid : actionValid ACTION_FEE = true := by decide
+    simp [Action.typed, actionValid_fits hid, Attrs.isAction, Attrs.typed, hl]
+  simp only [Payload.typed, Bool.and_eq_true, List.all_eq_true]
+  exact ⟨hat, hft⟩
+
+/-! non-vacuity: a concrete constructor-built payload meets the hypotheses -/
+example :
+    let p : Payload := { forwarding := some { protocolId := PROTOCOL_CCTP, attrs := some (.cctp 0 [1, 2, 3] []), passthrough := [] },
+                         preActions := [{ id := ACTION_FEE, attrs := some (.fee [{ recipient := "noble1x", feeType := .bps 100 }]) }] }
+    p.typed = true ∧ p.validate = .ok () := by decide
 
 end Orbiter.C15
